@@ -5,6 +5,8 @@
 
 #include <QtCore/qglobal.h>
 
+#include "verif_hooks.h"
+
 #if defined(QTLOGGER_STATIC)
 #    define QTLOGGER_EXPORT
 #elif defined(QTLOGGER_LIBRARY)
